@@ -1,6 +1,7 @@
 import Model
 import Proofs.Resolve
 import Proofs.Macro
+import Proofs.Blank
 /-!
 C15 — equivalent ways of writing a project give the same schedule.
 
@@ -287,20 +288,35 @@ example :
     correspondence stream.  What the model says on an example: -/
 example : process {} none "macro m [effort $1 $2]${m 4h \"x\"}".toList = .ok "effort 4h \"x\"".toList := by decide
 
-/-! ## open finding F38: comments are not inert for the preprocessor -/
+/-! ## F38 (repaired): comments are blanked before macro processing -/
 
-/-- "a `#` comment line in front of a text does not change which macros are defined" -/
+/-- "a `#` comment line in front of a text does not change which macros are defined" — for the extraction step ALONE -/
 def comments_inert : Prop :=
   ∀ (c t : List Char), (∀ x ∈ c, x ≠ '\n') → (extractMacros ('#' :: c ++ '\n' :: t)).1 = (extractMacros t).1
 
-/-- **F38 (open, refutation).**  `_extract_macros` has no notion of comments: `# macro a [x]` defines `a`.
-    (Model and code agree on this — the `mdefs` stream exercises it; the end-to-end witness is
-    `findings/F38.json`, reported as KNOWN-FINDING.) -/
+/-- **F38 (pinned code, refutation).**  `_extract_macros` has no notion of comments: `# macro a [x]` defines `a`.  On the pinned
+    code this step ran on the raw text (witness `findings/F38.json`); the repaired `process` blanks the comments first
+    (`Macro.processText`), so the extraction never sees one — next theorems. -/
 theorem comments_inert_fails : ¬ comments_inert := by
   intro h
   have := h " macro a [x]".toList [] (by decide)
   revert this
   decide
+
+/-- **the comment is white space** (`blank_comments`, repaired code): a `#` comment line in front of a text gives the
+    preprocessor exactly what the same number of blanks gives — whatever the comment contains (a macro definition, a macro
+    call, a project header, quotes).  The whole `process` therefore returns the same outcome for the two texts. -/
+theorem comment_is_whitespace (env : Macro.Env) (cap : Option Nat) (c : List Char) (hc : ∀ x ∈ c, x ≠ '\n') (v : List Char) :
+    processText env cap ('#' :: c ++ '\n' :: v) = processText env cap (List.replicate (c.length + 1) ' ' ++ '\n' :: v) := by
+  unfold processText
+  rw [Macro.comment_is_whitespace c hc v]
+
+/-- blanking replaces characters one for one: positions (line and column of later error messages) are unchanged -/
+theorem blank_keeps_positions (s : List Char) : (blankComments s).length = s.length := Macro.blankComments_length s
+
+/-- the F38 witness on the model: the commented-out redefinition no longer defines -/
+example : processText {} none "macro e [4h]\n# macro e [8h]\n${e}".toList = processText {} none "macro e [4h]\n              \n${e}".toList := by
+  decide +kernel
 
 /-! ## termination and size of the expansion -/
 
